@@ -523,6 +523,7 @@ def Extra (s : St) (l : Lexer) : Prop :=
   | .leftDelim => l.start = l.pos ∧ byteAt l.input l.pos.toNat = 123
   | .beginTag => l.start = l.pos
   | .insideTag => l.start = l.pos
+  | .ident => l.start = l.pos
   | .str q => l.start + 1 = l.pos ∧ (byteAt l.input l.start.toNat : Int) = q ∧ (q = 34 ∨ q = 39)
   | _ => True
 
@@ -574,13 +575,15 @@ def ErrItemOK (input : Array UInt8) (it : Item) : Prop :=
   (it.val = [clsTag] ∨ it.val = [clsLiteral] → it.pos = 0 ∨ byteAt input it.pos = 123) ∧
   (it.val = [clsString] → byteAt input it.pos = 34 ∨ byteAt input it.pos = 39) ∧
   (it.val = [clsComment] → byteAt input it.pos = 47 ∧ byteAt input (it.pos + 1) = 42) ∧
-  (it.val = [clsSoyDoc] → byteAt input it.pos = 47 ∧ byteAt input (it.pos + 1) = 42 ∧ byteAt input (it.pos + 2) = 42)
+  (it.val = [clsSoyDoc] → byteAt input it.pos = 47 ∧ byteAt input (it.pos + 1) = 42 ∧ byteAt input (it.pos + 2) = 42) ∧
+  (it.val = [clsName] → byteAt input it.pos = 46 ∨ byteAt input it.pos = 63)
 
 /-- the last item, if it is an Error item, is positioned as `ErrItemOK` says -/
 def ErrAt (l : Lexer) : Prop := ∀ it, l.items.back? = some it → it.typ = .tError → ErrItemOK l.input it
 
 theorem ErrItemOK.nil (input : Array UInt8) (p : Nat) : ErrItemOK input ⟨.tError, p, []⟩ :=
-  ⟨fun h => by rcases h with h | h <;> simp at h, fun h => by simp at h, fun h => by simp at h, fun h => by simp at h⟩
+  ⟨fun h => by rcases h with h | h <;> simp at h, fun h => by simp at h, fun h => by simp at h, fun h => by simp at h,
+    fun h => by simp at h⟩
 
 /-- an unclosed tag / literal is reported at `tagStart` -/
 theorem tag_err {l : Lexer} {cls : UInt8} (ht : l.tagBad = 0) (h0 : 0 ≤ l.tagStart)
@@ -590,33 +593,42 @@ theorem tag_err {l : Lexer} {cls : UInt8} (ht : l.tagBad = 0) (h0 : 0 ≤ l.tagS
     by_cases h : l.tagStart = 0 ∨ byteAt l.input l.tagStart.toNat = 123
     · exact h
     · rw [if_neg h] at ht; exact absurd ht (by decide)
-  refine ⟨fun _ => ?_, fun h => ?_, fun h => ?_, fun h => ?_⟩
+  refine ⟨fun _ => ?_, fun h => ?_, fun h => ?_, fun h => ?_, fun h => ?_⟩
   · rcases hor with h | h
     · left; show l.tagStart.toNat = 0; omega
     · right; exact h
-  all_goals (rcases hc with rfl | rfl <;> simp [clsTag, clsLiteral, clsString, clsComment, clsSoyDoc] at h)
+  all_goals (rcases hc with rfl | rfl <;> simp [clsTag, clsLiteral, clsString, clsComment, clsSoyDoc, clsName] at h)
 
 /-- "expected double closing braces in tag" (class 6): no claim about the bytes at the position -/
 theorem braces_err {input : Array UInt8} {p : Nat} : ErrItemOK input ⟨.tError, p, [clsBraces]⟩ :=
   ⟨fun h => by rcases h with h | h <;> simp [clsTag, clsLiteral, clsBraces] at h,
    fun h => by simp [clsBraces, clsString] at h, fun h => by simp [clsComment, clsBraces] at h,
-   fun h => by simp [clsSoyDoc, clsBraces] at h⟩
+   fun h => by simp [clsSoyDoc, clsBraces] at h, fun h => by simp [clsName, clsBraces] at h⟩
+
+/-- a bad name after `.` / `?.` is reported at the `.` / the `?` -/
+theorem name_err {input : Array UInt8} {p : Nat} (h : byteAt input p = 46 ∨ byteAt input p = 63) :
+    ErrItemOK input ⟨.tError, p, [clsName]⟩ :=
+  ⟨fun h => by rcases h with h | h <;> simp [clsTag, clsLiteral, clsName] at h, fun h => by simp [clsName, clsString] at h,
+   fun h => by simp [clsComment, clsName] at h, fun h => by simp [clsSoyDoc, clsName] at h, fun _ => h⟩
 
 theorem str_err {input : Array UInt8} {p : Nat} (h : byteAt input p = 34 ∨ byteAt input p = 39) :
     ErrItemOK input ⟨.tError, p, [clsString]⟩ :=
   ⟨fun h => by rcases h with h | h <;> simp [clsTag, clsLiteral, clsString] at h, fun _ => h,
-   fun h => by simp [clsComment, clsString] at h, fun h => by simp [clsSoyDoc, clsString] at h⟩
+   fun h => by simp [clsComment, clsString] at h, fun h => by simp [clsSoyDoc, clsString] at h,
+   fun h => by simp [clsName, clsString] at h⟩
 
 theorem cmt_err {input : Array UInt8} {p : Nat} (h : byteAt input p = 47 ∧ byteAt input (p + 1) = 42) :
     ErrItemOK input ⟨.tError, p, [clsComment]⟩ :=
   ⟨fun h => by rcases h with h | h <;> simp [clsTag, clsLiteral, clsComment] at h,
-   fun h => by simp [clsComment, clsString] at h, fun _ => h, fun h => by simp [clsSoyDoc, clsComment] at h⟩
+   fun h => by simp [clsComment, clsString] at h, fun _ => h, fun h => by simp [clsSoyDoc, clsComment] at h,
+   fun h => by simp [clsName, clsComment] at h⟩
 
 theorem doc_err {input : Array UInt8} {p : Nat}
     (h : byteAt input p = 47 ∧ byteAt input (p + 1) = 42 ∧ byteAt input (p + 2) = 42) :
     ErrItemOK input ⟨.tError, p, [clsSoyDoc]⟩ :=
   ⟨fun h => by rcases h with h | h <;> simp [clsTag, clsLiteral, clsSoyDoc] at h,
-   fun h => by simp [clsSoyDoc, clsString] at h, fun h => by simp [clsSoyDoc, clsComment] at h, fun _ => h⟩
+   fun h => by simp [clsSoyDoc, clsString] at h, fun h => by simp [clsSoyDoc, clsComment] at h, fun _ => h,
+   fun h => by simp [clsSoyDoc, clsName] at h⟩
 
 /-- what a state function must deliver: it returns (no panic); if it hands over to a next
     state, the invariant holds again and the measure went down; if it ends the scan (nil
